@@ -105,20 +105,43 @@ def run(ctx):
                 why = f"gives {out!r}"
             else:
                 got_lines = split_lines(out.value)
+                if got_lines and got_lines[-1] == []:
+                    got_lines = got_lines[:-1]      # a trailing newline is not an extra line
                 if len(got_lines) != len(vorder):
                     why = f"{len(got_lines)} line(s) for {len(vorder)} member vertices: {out.value!r}"
                 else:
-                    for v, line in zip(vorder, got_lines):
+                    # "sorted by the key": elements with equal keys may come in any order
+                    def orders(seq):
+                        if not use_sort:
+                            return [list(seq)]
+                        groups = {}
+                        for x in seq:
+                            groups.setdefault(keys[x], []).append(x)
+                        outs = [[]]
+                        for kk in sorted(groups):
+                            outs = [o + list(p) for o in outs for p in (itertools.permutations(groups[kk]) if len(groups[kk]) <= 3 else [groups[kk]])]
+                        return outs
+                    line_of = {}
+                    for line in got_lines:
+                        first = line[0].key() if line and hasattr(line[0], "key") else None
+                        line_of.setdefault(first, []).append(line)
+                    vorders = orders(order)
+                    got_first = [l[0].key() if l and hasattr(l[0], "key") else None for l in got_lines]
+                    vmatch = next((vo for vo in vorders if [R(v).key() for v in vo] == got_first), None)
+                    if vmatch is None:
+                        why = f"lines start with {[SymStr(l[:1]) for l in got_lines]}, expected the members in universe order / key order {vorders[0]}"
+                    for v, line in zip(vmatch or [], got_lines):
                         nbs = forward(order, de, ue, v)
-                        if use_sort:
-                            nbs = sorted(nbs, key=keys.get)
-                        parts = [R(v), " -> "]
-                        for i, w in enumerate(nbs):
-                            if i:
-                                parts.append(", ")
-                            parts.append(R(w))
-                        want = SymStr(parts)
-                        ok = SymStr(line).norm() == want.norm()
+                        wants = []
+                        for nb_order in orders(nbs):
+                            parts = [R(v), " -> "]
+                            for i, w in enumerate(nb_order):
+                                if i:
+                                    parts.append(", ")
+                                parts.append(R(w))
+                            wants.append(SymStr(parts))
+                        want = wants[0]
+                        ok = any(SymStr(line).norm() == w_.norm() for w_ in wants)
                         if not ok and not nbs:
                             # a vertex without neighbours: rendering, arrow, then nothing but blanks
                             ln = SymStr(line).norm()
